@@ -450,11 +450,21 @@ func c12Goroutines(w *World, r *Report) {
 			}
 		})
 	}
-	exceptions := map[string]string{
-		"xmpp.(*Router).NewIQResultRoute$1#recv": "waits on ctx.Done(): ends when the caller's context ends (documented requirement of SendIQ)",
-		"xmpp.(*XMPPTransport).Close#select":     "waits for the server's stream close or a timeout (time.After) — bounded",
-		"xmpp.(*WebsocketTransport).Read#select": "waits for data or for the close context — terminating alternative present",
-		"xmpp.keepalive#select":                  "ticker or quit — judged by R3",
+	// a receive that ends by itself: a context's Done channel, a timer
+	terminating := func(ch ssa.Value) string {
+		o := chanOrigin(ch)
+		if c, ok := o.(*ssa.Call); ok {
+			switch w.callKey(c) {
+			case "context.Context.Done":
+				return "a context's Done(): ends when the context ends"
+			case "time.After", "time.Tick":
+				return "a timer: bounded"
+			}
+		}
+		if f, _ := loadedField(o); f != nil && f.Name() == "C" && strings.HasPrefix(f.Pkg().Path(), "time") {
+			return "a ticker/timer channel"
+		}
+		return ""
 	}
 	sort.Slice(ops, func(i, j int) bool { return w.ipos(ops[i].in) < w.ipos(ops[j].in) })
 	cnt := map[string]int{}
@@ -462,14 +472,27 @@ func c12Goroutines(w *World, r *Report) {
 		k := w.funcKey(op.fn) + "#" + op.kind
 		cnt[k]++
 		cons := fmt.Sprintf("chan:%s#%d", k, cnt[k])
-		if why, ok := exceptions[k]; ok {
-			// verify the claimed alternative structurally where it is a select
-			if sel, isSel := op.in.(*ssa.Select); isSel && len(sel.States) < 2 {
-				r.Fail("R4", cons, w.ipos(op.in), "select has a single case: no terminating alternative")
+		switch x := op.in.(type) {
+		case *ssa.Select:
+			why := ""
+			for _, st := range x.States {
+				if st.Dir == types.RecvOnly {
+					if t := terminating(st.Chan); t != "" {
+						why = t
+					}
+				}
+			}
+			if len(x.States) >= 2 && why != "" {
+				r.Ok("R4", cons, "select with a terminating alternative: "+why)
+			} else {
+				r.Fail("R4", cons, w.ipos(op.in), "blocking select without a terminating alternative (a context's Done, a timer): the goroutine can wait forever")
+			}
+			continue
+		case *ssa.UnOp:
+			if t := terminating(x.X); t != "" {
+				r.Ok("R4", cons, "waits on "+t)
 				continue
 			}
-			r.Ok("R4", cons, why)
-			continue
 		}
 		switch op.kind {
 		case "send":
